@@ -42,7 +42,8 @@ func (c08) Plan(tier string, seed int64) []mon.Workload {
 	return []mon.Workload{{Name: "v1", N: n}, {Name: "v2", N: n}, {Name: "subset-tables", N: n / 2},
 		{Name: "long-valid", N: int64(len(c08LongSizes) * len(c08LongShapes) * 2), Exhaustive: true},
 		{Name: "after-valid-twin", N: int64(len(c08BadV1) * len(c08TwinWraps)), Exhaustive: true},
-		{Name: "bare-offenders", N: int64(len(c08BareOffenders) * len(c08BareContexts) * 2), Exhaustive: true}}
+		{Name: "bare-offenders", N: int64(len(c08BareOffenders) * len(c08BareContexts) * 2), Exhaustive: true},
+		{Name: "decided-conditions", N: int64(len(c08DecidedOuter) * len(c08DecidedInner) * len(c08DecidedOff) * 2), Exhaustive: true}}
 }
 
 // invalid calls per builtin: label -> source text (identifiers a, b exist as plain names)
@@ -151,6 +152,10 @@ func (c08) base(c *mon.Ctx, v2 bool) []*gt.T {
 func (k c08) Describe(c *mon.Ctx, workload string, i int64) any {
 	if workload == "bare-offenders" {
 		src, off, _ := c08BareCase(i)
+		return map[string]any{"source": src, "offender": off}
+	}
+	if workload == "decided-conditions" {
+		src, off, _ := c08DecidedCase(i)
 		return map[string]any{"source": src, "offender": off}
 	}
 	if workload == "long-valid" || workload == "after-valid-twin" {
@@ -332,6 +337,10 @@ func (k c08) Run(c *mon.Ctx, workload string, i int64) {
 	}
 	if workload == "bare-offenders" {
 		k.bareOffenders(c, i)
+		return
+	}
+	if workload == "decided-conditions" {
+		k.decided(c, i)
 		return
 	}
 	v2 := workload == "v2"
@@ -551,6 +560,66 @@ func (k c08) bareOffenders(c *mon.Ctx, i int64) {
 			c.Violate("load-error-points-elsewhere:"+name, fmt.Sprintf("the offender %q occupies bytes [%d,%d) of %q but the error points at %s:%d:%d (offset %d): %s", off, at, at+len(off), src, p.File, p.Ln, p.Col, p.Pos, pe.Err), cs)
 		} else if d := drive.CheckPosition(p, "c08.p", src); d != "" {
 			c.Violate("load-error-bad-position", d+"\n"+src, cs)
+		}
+	}
+}
+
+// decided-conditions (exhaustive, v1 and v2): the offender in code that can
+// never run because a constant decides the outcome - the right operand of
+// `false && ...` / `true || ...`, the body of `if false`, a loop whose
+// condition is false, code after exit() - directly and below every kind of
+// expression node (slice object and bounds, index, list, map, unary, paren,
+// comparison, call argument). Load-time checking is about the text, not
+// about what can execute.
+var c08DecidedOuter = []string{"if false && E {\n}\n", "if true || E {\n}\n", "if a {\n} elif false && E {\n}\n", "if a {\n} elif true || E {\n} else {\n}\n", "for ; false && E; {\n}\n", "x = false && E\n", "x = true || E\n",
+	"if false && a && E {\n}\n", "if (false && E) {\n}\n", "if !(true || E) {\n}\n", "if false {\n  x = E\n}\n", "for ; false; {\n  x = E\n}\n", "for e in [] {\n  x = E\n}\n", "if true {\n} else {\n  x = E\n}\n", "if false && (a || E) {\n}\n", "if false && a {\n} elif a {\n  if true || E {\n  }\n}\n"}
+var c08DecidedInner = []string{"OFF", "s[OFF:]", "s[:OFF]", "s[::OFF]", "s[1:OFF:2]", "s[OFF]", "[OFF]", "{\"k\": OFF}", "-OFF", "(OFF)", "OFF == 1", "1 + OFF", "s[OFF:] == \"x\"", "[s[:OFF]]", "!OFF", "OFF in s", "s in [OFF]"}
+var c08DecidedOff = []string{"nosuch()", "len()", "nosuch(1, x = 2)"}
+var c08DecidedOffV2 = []string{"nosuch()", "f()", "f(1, 2, 3)"} // f(a, b = 0) is the declared function of the v2 table
+
+func c08DecidedCase(i int64) (src, off string, v2 bool) {
+	v2 = i%2 == 1
+	i /= 2
+	off = c08DecidedOff[int(i)%len(c08DecidedOff)]
+	if v2 {
+		off = c08DecidedOffV2[int(i)%len(c08DecidedOff)]
+	}
+	i /= int64(len(c08DecidedOff))
+	in := c08DecidedInner[int(i)%len(c08DecidedInner)]
+	out := c08DecidedOuter[int(i)/len(c08DecidedInner)]
+	return "s = \"text\"\na = 1\n" + strings.Replace(out, "E", strings.Replace(in, "OFF", off, 1), 1), off, v2
+}
+
+func (k c08) decided(c *mon.Ctx, i int64) {
+	src, off, v2 := c08DecidedCase(i)
+	load, name := c08Loader(loadV1Err), "v1"
+	if v2 {
+		load, name = loadV2Err, "v2"
+	}
+	// the same text with a harmless operand in the offender's place must load
+	if e, p := load(strings.Replace(src, off, "a", 1)); e != nil || p != nil {
+		c.Count("decided_contexts_not_accepted_by_themselves", 1)
+		c.Cell("decided_contexts_not_accepted", firstLineOf(fmt.Sprint(e)))
+		return
+	}
+	err, pan := load(src)
+	c.Eval(1)
+	c.Nontrivial(src + name)
+	cs := map[string]any{"source": src, "offender": off, "interpreter": name}
+	at := strings.Index(src, off)
+	switch {
+	case pan != nil:
+		c.Violate("check-panic", fmt.Sprintf("loading panicked: %v\n%s", pan, src), cs)
+	case err == nil:
+		c.Violate("offender-accepted:"+name+":decided", fmt.Sprintf("%s was accepted by the %s check pass in code a constant keeps from running\n%s", off, name, src), cs)
+	default:
+		pe, ok := err.(*errchain.PlError)
+		if !ok || len(pe.PosChain) == 0 {
+			c.Violate("load-error-without-position", fmt.Sprintf("%T %v\n%s", err, err, src), cs)
+			return
+		}
+		if p := pe.PosChain[0]; p.Pos < at || p.Pos >= at+len(off) {
+			c.Violate("load-error-points-elsewhere:"+name, fmt.Sprintf("the offender %s occupies bytes [%d,%d) but the error points at %s:%d:%d (offset %d): %s\n%s", off, at, at+len(off), p.File, p.Ln, p.Col, p.Pos, pe.Err, src), cs)
 		}
 	}
 }
